@@ -40,7 +40,7 @@ class C17(Check):
     assumptions = ["fault points are the hook points of libwild/src/verif.rs (cfg wild_verif); faults inside phases are reached "
                    "only through the per-input open points and external signals",
                    "byte-equality with the fault-free link relies on deterministic output (C06)"]
-    quick_cases = 16
+    quick_cases = 8
     thorough_cases = 400
     max_workers = 8
 
@@ -172,13 +172,25 @@ class C17(Check):
                     os.unlink(f"{d}/out")
             else:
                 judge(run, "natural-undefined@link", fork, before_done=True)
-            os.makedirs(f"{d}/isdir", exist_ok=True)
+            # Output path is a directory: wild may fail, or (shared objects: rename-and-replace mode) move the
+            # directory aside and write the file; either way status 0 requires a complete output file.
+            import shutil
+            for p_ in (f"{d}/isdir", f"{d}/isdir.delete"):
+                if os.path.isdir(p_) and not os.path.islink(p_):
+                    shutil.rmtree(p_, ignore_errors=True)
+                elif os.path.lexists(p_):
+                    os.unlink(p_)
+            os.makedirs(f"{d}/isdir")
             run = faults.run_and_reap(base + mode + ["-o", "isdir"], d)
-            n_exec += 1
-            if run.rc == 0:
-                sig = f"status0-output-is-directory:{'fork' if fork else 'nofork'}"
-                if not self._tolerated(ctx, sig, counters):
-                    raise Violation(sig, "output path is a directory, yet exit status 0", {"stderr": run.err[-300:]})
+            if os.path.isdir(f"{d}/isdir"):
+                n_exec += 1
+                if run.rc == 0:
+                    sig = f"status0-output-is-directory:{'fork' if fork else 'nofork'}"
+                    if not self._tolerated(ctx, sig, counters):
+                        raise Violation(sig, "output path is still a directory (nothing written), yet exit status 0",
+                                        {"stderr": run.err[-300:]})
+            else:
+                judge(run, "natural-output-was-directory@link", fork, before_done=False, out="isdir")
             os.makedirs(f"{d}/ro", exist_ok=True)
             os.chmod(f"{d}/ro", 0o555)
             if os.geteuid() != 0:
